@@ -127,6 +127,10 @@ Definition sync_reader_ok (l : list ev) : bool :=
   before (is_k (EAssign "batch" "=" "make([]extractor.BString, 0, batchSize)")) (pand (is_send "s.c") (ctx false 0 0)) l &&
   forallb (fun e => implb (is_k (EAssign "batchStart" "+=" "uint64(len(batch))") e) (ctx false 0 1 e)) l &&
   unique (is_call "readahead.Scan") (ctx false 0 1) l &&
+  (* the scanner is created here, for this source alone, with the package's buffer size, and nothing is handed
+     back when the source ends (no deferred action): the slices it gave out stay valid for ever *)
+  unique (is_call "readahead.NewImmediate") (pand (ctx false 0 0) (is_k (ECall "readahead.NewImmediate" "readerMetrics, ReadAheadBufferSize"))) l &&
+  forallb (fun e => negb (in_defer e)) l &&
   (count (is_call "close") l =? 0).
 
 (* ---- worker pool: pkg/extractor/extractor.go New / asyncWorker ------------------------------------
